@@ -234,7 +234,23 @@ func applyIgnore(bt *gen.Built, lineID int, c ignCase, code string, rng *base.Ra
 				}
 			}
 			if closing == nil {
-				return false, ""
+				// no compound statement ends just before: one is inserted for the purpose
+				if !self.IsStatement() || !holdsStatementList(self) {
+					return false, ""
+				}
+				forms := [][2]string{{"{", "bare-block"}, {"if true {", "if"}, {"for false {", "for"}, {"switch {", "switch"}, {"func() {", "closure"}}
+				fm := forms[rng.Intn(len(forms))]
+				closing = p.NewLine("}")
+				if fm[1] == "closure" {
+					closing = p.NewLine("}()")
+				}
+				blk := &gen.Node{Pre: []*gen.Line{p.NewLine(fm[0])}, Kids: []*gen.Node{{Pre: []*gen.Line{p.NewLine("_ = 0")}}}, Post: []*gen.Line{closing}}
+				if fm[1] == "switch" {
+					blk.Kids = []*gen.Node{{Pre: []*gen.Line{p.NewLine("default:")}, Kids: blk.Kids}}
+				}
+				kids := self.Parent.Kids
+				self.Parent.Kids = append(append(append([]*gen.Node{}, kids[:self.Index]...), blk), kids[self.Index:]...)
+				desc += "+inserted-" + fm[1]
 			}
 			closing.Trail = ig
 			break
@@ -313,19 +329,36 @@ var labelRe = regexp.MustCompile(`^[A-Za-z_][A-Za-z0-9_]*:($|[^=])`)
 // holds a statement list (not literal elements, group members, argument lines), it declares nothing later statements
 // may refer to, and it carries no label a goto may target.
 func movableIntoClause(self gen.StmtRef) bool {
-	if self.Parent == nil || len(self.Parent.Pre) != 1 || len(self.N.Pre) == 0 {
+	if !holdsStatementList(self) || len(self.N.Pre) == 0 {
 		return false
 	}
-	pfirst := strings.TrimSpace(self.Parent.Pre[0].Text)
-	holds := false
-	for _, pre := range []string{"func ", "if ", "for ", "case ", "default:", "{"} {
-		holds = holds || strings.HasPrefix(pfirst, pre) && (strings.HasSuffix(pfirst, "{") || strings.HasSuffix(pfirst, ":"))
-	}
+	holds := true
 	first := strings.TrimSpace(self.N.Pre[0].Text)
 	if !holds || strings.Contains(first, ":=") || strings.HasPrefix(first, "var ") || strings.HasPrefix(first, "const ") || strings.HasPrefix(first, "type ") {
 		return false
 	}
 	return !labelRe.MatchString(first)
+}
+
+// holdsStatementList: the parent of the node is a function, block or clause whose children are statements.
+func holdsStatementList(self gen.StmtRef) bool {
+	if self.Parent == nil || len(self.Parent.Pre) != 1 {
+		return false
+	}
+	pfirst := strings.TrimSpace(self.Parent.Pre[0].Text)
+	for _, pre := range []string{"func ", "if ", "for ", "case ", "default:", "{"} {
+		if strings.HasPrefix(pfirst, pre) && (strings.HasSuffix(pfirst, "{") || strings.HasSuffix(pfirst, ":")) {
+			return true
+		}
+	}
+	return false
+}
+
+func gcdInt(a, b int) int {
+	for b != 0 {
+		a, b = b, a%b
+	}
+	return a
 }
 
 func flatNode(n *gen.Node) []*gen.Line {
@@ -353,6 +386,12 @@ func checkC07(replay string) {
 			placements = append(placements, ignCase{placement: pl.p, where: w})
 		}
 	}
+	// every (placement, code-list shape) pair, in one seed-determined order that all programs walk through in turn
+	pairOrder := make([]int, len(placements)*gen.NCodeLists())
+	for i := range pairOrder {
+		pairOrder[i] = i
+	}
+	base.Shuffle(base.NewRand(r.Seed, "c07-pairs"), pairOrder)
 	var mu sync.Mutex
 	codesSeen := map[string]int{}
 	combos := map[string]int{}
@@ -414,7 +453,8 @@ func checkC07(replay string) {
 			if m := byCodeMulti[code]; len(m) > 0 && k%2 == 0 {
 				ids = m
 			}
-			c := placements[(k*7+pi)%len(placements)]
+			pair := pairOrder[(k+pi*perProg)%len(pairOrder)]
+			c := placements[pair/gen.NCodeLists()]
 			if c.placement == "package-clause-trailing" {
 				// the declaration that follows the package clause is where a mis-scoped comment would show
 				var firsts []int
@@ -428,7 +468,7 @@ func checkC07(replay string) {
 				}
 			}
 			lineID := ids[rng.Intn(len(ids))]
-			c.list = (k + pi*2) % gen.NCodeLists() // (independent of the placement index modulo every common factor of the two cycle lengths)
+			c.list = pair % gen.NCodeLists()
 			bt := gen.Build(spec)
 			ok, desc := applyIgnore(bt, lineID, c, code, rng)
 			if !ok {
@@ -552,6 +592,15 @@ func checkC07(replay string) {
 	}
 	r.Obs("codes_targeted", codesSeen)
 	r.Obs("programs", nProg)
+	// cases judged per placement/where (first two components of the combination key; pair/... = two-comment phase)
+	perPlacement := map[string]int{}
+	for k, n := range combos {
+		parts := strings.SplitN(k, "/", 3)
+		if len(parts) >= 2 {
+			perPlacement[parts[0]+"/"+parts[1]] += n
+		}
+	}
+	r.Obs("cases_per_placement", perPlacement)
 	if len(codesSeen) < 16 && r.NViol() == 0 {
 		missing := []string{}
 		for _, c := range gen.AllCodes {
